@@ -26,8 +26,6 @@ impl AdditionalLifecycleEventsSet {
         proof { broadcast use crate::ext_vec::lemma_push_no_dup, crate::ext_vec::lemma_push_contains; }
 //@ enditem
 //@ item src/sources/mod.rs / impl AdditionalLifecycleEventsSet / fn unregister props=C14,C06
-//@ closure 1
--> (b: bool) ensures b == (*it != token)
 //@ spec
         ensures final(self)@ == old(self)@.filter(|x: RegistrationToken| x != token),
                 !final(self)@.contains(token),
